@@ -2,7 +2,7 @@
 from common import *
 
 PID = "C12"
-TARGETS = ["Run.vo"]
+TARGETS = ["Run.vo", "NonVacuous/C12.vo"]
 IMPORTS = "From VF Require Import Base Show Gen_Errors Queue Run."
 ALLOWED_AXIOMS = []
 PROFILES = ["debug"]
